@@ -556,3 +556,10 @@ class P(Prop):
     def mutate(self, case, rng):
         for _ in range(20):
             yield self.lattice(rng, "q")
+
+
+# ---- tie to the source by translation (tools/py2lean.py -> lean/TracklibVerif/Gen/Raster.lean, regenerated on every run)
+P.tie_modules = ["TracklibVerif.Tie.C19"]
+P.theorems = P.theorems + [
+    ("TracklibVerif.Tie.C19", "TV.Tie.C19.tie_getCell", "the Lean translation of the CURRENT source of Raster.getCell equals the model's getCell on all arguments (resolution != 0; int() = floor on integral floats; the scalar's == is Python's ==)"),
+]
